@@ -21,7 +21,7 @@ _counter = itertools.count()
 
 HEADER = '''# (no postponed annotations: field types are evaluated once, like in the repository tests)
 from abc import ABC
-from dataclasses import dataclass
+from dataclasses import dataclass, field
 from typing import Annotated, Union
 import numpy as np
 from geneticengine.grammar.decorators import abstract, weight
@@ -116,6 +116,8 @@ def spec_source(spec):
                 lines.append("    pass")
             for n, f in c["fields"]:
                 lines.append(f"    {n}: {form_src(f)}")
+            for n, f in c.get("noninit", []):       # dataclass fields that are NOT constructor parameters: not part of the grammar
+                lines.append(f"    {n}: {form_src(f)} = field(init=False, default=None)")
         lines.append("")
     return "\n".join(lines)
 
@@ -424,6 +426,13 @@ FIXED += [
         _c("F", "", abstract=True),
         _c("FI", "F", [("x", ("ann", ("base", "float"), ("FloatRangeInt", 0, 5))), ("y", ("ann", ("base", "float"), ("FloatRangeInt", -2, 2)))]),
         _c("FR", "F", [("z", ("ann", ("base", "float"), ("FloatRangeInt", 1, 1))), ("r", ("sym", "F"))])]},
+    # dataclass fields that are not constructor parameters (bookkeeping attributes) mention deeper / recursive / otherwise
+    # unmentioned symbols: they are no children of the production
+    {"id": "noninit", "start": "Expr", "classes": [
+        _c("Expr", "", abstract=True), _c("Label", "", [("t", I01)]),
+        _c("Lit", "Expr", [("v", I01)]),
+        _c("Tagged", "Expr", [("v", I01)], noninit=[("cache", ("sym", "Expr")), ("label", ("sym", "Label"))]),
+        _c("Neg", "Expr", [("e", E)])]},
     # weighted productions whose weights do not add up to a power of two
     {"id": "weighted", "start": "Expr", "classes": [
         _c("Expr", "", abstract=True), _c("Lit", "Expr", [("v", I01)], weight=3),
